@@ -61,59 +61,76 @@ def _chain_job(a):
         for n in names[:upto]:
             x = getattr(x, n)
         return x
-    for r in range(a['reads']):
-        for depth in range(1, len(names) + 1):
-            x = nav(depth)
-            len(x)
-            [y for y in x]
-            repr(x)
-            try:
-                x.to_er7()
-            except Exception:  # noqa
-                pass
-            if r % 2:
+    total = 0
+    for rnd in range(a.get('rounds', 1)):
+        value = a['value'] if rnd == 0 or a['value'] != 'X' else 'X%d' % rnd
+        expected_line = a['expected_line'] if value == a['value'] else a['expected_line'][:-len(a['value'])] + value
+        for r in range(a['reads']):
+            for depth in range(1, len(names) + 1):
+                x = nav(depth)
+                len(x)
+                [y for y in x]
+                repr(x)
                 try:
-                    x[0]
-                except IndexError:
+                    x.to_er7()
+                except Exception:  # noqa
                     pass
-        now = snapshot(m)
-        if now != base:
-            return 'read-wrote depth=%d pass=%d before=%r after=%r' % (len(names), r, base[:2], now[:2])
-    before = reachable(m, {})
-    parent = nav(len(names) - 1)
-    setattr(parent, names[-1], a['value'])
-    after = reachable(m, {})
-    new = [e for i, e in after.items() if i not in before]
-    # the chain, as now materialised
-    chain = []
-    x = m
-    for n in names:
-        p = getattr(x, n)
-        if len(p) != 1:
-            return 'chain-element-count %s: %d' % (n, len(p))
-        c = p[0]
-        if c.parent is not x or sum(1 for y in x.children if y is c) != 1:
-            return 'chain-element-not-listed-once %s' % n
-        if c.traversal_parent is not None:
-            return 'chain-element-still-traversal %s' % n
-        chain.append(c)
-        x = c
-    last = chain[-1]
-    inside = reachable(last, {})
-    for e in new:
-        if not any(e is c for c in chain) and id(e) not in inside:
-            return 'extra-element %s under %s' % (e.name, e.parent.name if e.parent is not None else None)
-    for c in chain:
-        if id(c) in before:
-            return 'chain-element-existed %s' % c.name
-    enc = m.to_er7()
-    lines = enc.split('\r')
-    if lines[1:] != [a['expected_line']]:
-        return 'encoding got=%r expected=%r' % (lines[1:], a['expected_line'])
-    # nothing left behind in the shadow index along the chain
-    x = m
-    for c in chain:
-        if any(c is y for l in x.children.traversal_indexes.values() for y in l):
-            return 'chain-element-left-in-traversal-index %s' % c.name
-        x = c
-    return 'ok %d' % len(new)
+                if r % 2:
+                    try:
+                        x[0]
+                    except IndexError:
+                        pass
+            now = snapshot(m)
+            if now != base:
+                return 'read-wrote round=%d depth=%d pass=%d before=%r after=%r' % (rnd, len(names), r, base[:2], now[:2])
+        before = reachable(m, {})
+        parent = nav(len(names) - 1)
+        setattr(parent, names[-1], value)
+        after = reachable(m, {})
+        new = [e for i, e in after.items() if i not in before]
+        # the chain, as now materialised
+        chain = []
+        x = m
+        for n in names:
+            p = getattr(x, n)
+            if len(p) != 1:
+                return 'chain-element-count %s: %d' % (n, len(p))
+            c = p[0]
+            if c.parent is not x or sum(1 for y in x.children if y is c) != 1:
+                return 'chain-element-not-listed-once %s' % n
+            if c.traversal_parent is not None:
+                return 'chain-element-still-traversal %s' % n
+            chain.append(c)
+            x = c
+        last = chain[-1]
+        inside = reachable(last, {})
+        for e in new:
+            if not any(e is c for c in chain) and id(e) not in inside:
+                return 'extra-element %s under %s' % (e.name, e.parent.name if e.parent is not None else None)
+        for c in chain:
+            if id(c) in before:
+                return 'chain-element-existed %s' % c.name
+        enc = m.to_er7()
+        lines = enc.split('\r')
+        if lines[1:] != [expected_line]:
+            return 'encoding got=%r expected=%r' % (lines[1:], expected_line)
+        # nothing left behind in the shadow index along the chain
+        x = m
+        for c in chain:
+            if any(c is y for l in x.children.traversal_indexes.values() for y in l):
+                return 'chain-element-left-in-traversal-index %s' % c.name
+            x = c
+        total += len(new)
+        if rnd + 1 < a.get('rounds', 1):
+            # delete what the write created and start again: the element must look as it did at the beginning
+            delattr(m, names[0])
+            now = snapshot(m)
+            if now != base:
+                return 'delete-did-not-restore round=%d before=%r after=%r' % (rnd, base[:2], now[:2])
+            try:
+                leaf = nav(len(names)).to_er7()
+            except Exception as e:  # noqa
+                leaf = 'EXC ' + vlib.exc_name(e)
+            if leaf not in ('', None):
+                return 'read-after-delete-sees-old-value round=%d value=%r' % (rnd, leaf)
+    return 'ok %d' % total
